@@ -12,6 +12,18 @@ CHECKS = {
  "C17": ("exploration", "runtime monitor: expected field list computed from the population spec vs. tokenized wire bytes",
          "For every generated message the harness computes, from its own population spec, the exact ordered list of tag=value fields that must be on the wire (all 7 value types x 5 constructor/setter paths, header/body/trailer, Set(nil) un-population, group counts) and compares it with the independently tokenized output of the real serializer. Held on the executions listed; sampled, not exhaustive.",
          "Trusted base: fixref tokenizer, the harness's canonical-text rules (any plain decimal that parses back exactly is accepted for floats).", "DESIGN.md §3 C17"),
+ "C02": ("exploration", "runtime monitor: round-trip oracle (population spec vs. parsed tree, then byte equality) over the real serializer and parser",
+         "Every generated message (random templates with nested groups/components, tags related by decimal suffix/prefix, decoy strings, all 7 value types also inside group entries; every tests/fix44 type) is serialized by the library, parsed strict and non-strict into an empty message of the same template, compared leaf by leaf with the harness's own population spec (Go type and value), re-serialized and compared byte for byte. Sampled, not exhaustive.",
+         "Trusted base: the population spec and comparison code in harness/gen; the statement's preconditions (one position per tag, first entry field populated, no empty values) are enforced by the generator.", "DESIGN.md §3 C02"),
+ "C03": ("exploration", "runtime monitor: accepted => independently valid frame, over the complete single-edit neighbourhood of each base message",
+         "For every base message the complete neighbourhood (all 255*len substitutions, 256*(len-1) insertions, len deletions, len-1 prefixes) is parsed in both modes; any accepted variant that the independent frame validator rejects is a violation. Exhaustive per base message, sampled over base messages.",
+         "Trusted base: fixref.CheckFrame. A zero byte inserted into the BeginString value is framing-neutral (neither integrity field can see it) and is counted, not judged.", "DESIGN.md §3 C03"),
+ "C11": ("exploration", "runtime monitor: panic/hang/over-read monitor around the real decoder under hostile generated inputs and go test -fuzz",
+         "Hostile inputs (all strings of length <=3 over a 7-symbol alphabet, frame-fixed field soups built from each template's own tags incl. nested group junk, mutations of valid output, coverage-guided fuzzing) are fed to Unmarshal (strict/non-strict, every fix44 type and nested-group templates) and ValueByTag under recover, as exact-capacity slices and embedded in a larger adversarial buffer (results must agree); a hang watchdog with starvation canary; a dying child is a violation.",
+         "Trusted base: Go's bounds checking (every out-of-range slice is a panic once capacity equals length), recover(), the watchdog. Input space is unbounded: held on the inputs listed in the evidence.", "DESIGN.md §3 C11"),
+ "C18": ("exploration", "runtime monitor: decoy-insensitivity oracle over messages built by the reference encoder",
+         "For a tag t in 8 roles x 6 decoy placements x genuine present/absent, messages containing 't=' inside other values and fields whose tag has t as a proper decimal suffix/prefix are built by the reference encoder, parsed (both modes) into the library template and queried with ValueByTag for every tag; results must equal what the construction says.",
+         "Trusted base: fixref encoder/tokenizer and the construction-derived expectation. Connection framing and session-level extraction are covered by the C04/C16 workloads.", "DESIGN.md §3 C18"),
 }
 
 NOT_YET = {}
